@@ -103,7 +103,11 @@ pub fn worker(tier: &str, seed: u64, from: u64, to: u64, _extra: &[String]) -> A
     let mut agg = Agg::default();
     let scratch = runner::verif_path(&format!("target/scratch/p-{}", std::process::id()));
     let _ = std::fs::create_dir_all(&scratch);
+    let progress_file = std::env::var("VERIF_WORKER_OUT").unwrap_or_default();
     for i in from..to {
+        if !progress_file.is_empty() {
+            runner::note_progress(&progress_file, i);
+        }
         let s = runner::run_seed(seed, i);
         let lib = world_p::generate(s, thorough);
         let n = lib.notes.len();
